@@ -168,7 +168,10 @@ class Ref:
         if k == 'pat':
             return ('pattern', pattern_set(e[1]))
         if k == 'var':
-            return self.lookup(e[1])
+            v = self.lookup(e[1])
+            if v is NOTHING:
+                raise RefUndefined('use of a variable that holds the result of a call that returned nothing')
+            return v
         if k == 'mac':
             if e[1] not in self.macros:
                 raise RefUndefined('undefined macro %r' % e[1])
@@ -256,7 +259,9 @@ class Ref:
         params = rt[2]
         if len(params) != len(args):
             raise RefUndefined('arity')
-        vals = [self.ev(a) for a in args]        # caller's scope, left to right
+        # caller's scope, left to right; an argument may be the result of a call that returned nothing:
+        # the parameter then exists (and hides a global) but holds no usable value
+        vals = [self.call(a[1], a[2]) if a[0] == 'call' else self.ev(a) for a in args]
         if len(self.frames) > 40:
             raise RefCap()
         f = Frame(rt)
